@@ -1162,3 +1162,7 @@ def r2b(cx):
                      'parser stores the exact source between `$(` and `)`, so any re-rendering prints a tree that parses back differently '
                      '(and `$(` + `(subshell)` even becomes an arithmetic expansion `$((`)' % (', '.join(sorted(set(bad))) or 'content unused'),
                      loc='%s:%s' % (h['file'], arm['body'].get('line') or h['line']))
+
+
+# --- explanation addendum (generated catalogue in DESIGN.md reads RS.explanation)
+RS.explanation += ' Added later: the raw text of a command substitution is printed verbatim (R2b).'
